@@ -31,11 +31,14 @@ func init() { drive.Register("minerexec", runMiner) }
 
 type gatedEngine struct {
 	*solo.Solo
-	mu     sync.Mutex
-	cb     common.Address
-	parked chan uint64
-	goCh   chan struct{}
-	quit   chan struct{}
+	mu       sync.Mutex
+	cb       common.Address
+	last     common.Address
+	fallback common.Address
+	bc       *core.BlockChain
+	parked   chan uint64
+	goCh     chan struct{}
+	quit     chan struct{}
 }
 
 func newGatedEngine() *gatedEngine {
@@ -46,12 +49,22 @@ func newGatedEngine() *gatedEngine {
 
 func (e *gatedEngine) setCoinbase(a common.Address) { e.mu.Lock(); e.cb = a; e.mu.Unlock() }
 
-// GetValMainAddress is what commitNewWork uses as coinbase.
+// GetValMainAddress is what commitNewWork uses as coinbase: the proposer the program names, provided it is a validator in
+// the head state (a real engine never selects a non-validator; the program cannot know whom the previous block removed),
+// otherwise the fallback proposer.
 func (e *gatedEngine) GetValMainAddress() common.Address {
 	e.mu.Lock()
 	defer e.mu.Unlock()
-	return e.cb
+	e.last = e.cb
+	if e.bc != nil {
+		if st, err := e.bc.State(); err == nil && st.GetValidatorByMainAddr(e.cb) == nil {
+			e.last = e.fallback
+		}
+	}
+	return e.last
 }
+
+func (e *gatedEngine) lastCoinbase() common.Address { e.mu.Lock(); defer e.mu.Unlock(); return e.last }
 
 // Prepare parks the worker until the driver lets the block be assembled.
 func (e *gatedEngine) Prepare(chain consensus.ChainReader, h *types.Header) error {
@@ -106,6 +119,9 @@ func runMiner(env *drive.Env) error {
 			eng := newGatedEngine()
 			w := sd.NewWorldEngine(eng)
 			defer w.Stop()
+			eng.mu.Lock()
+			eng.bc, eng.fallback = w.A.Bc, w.Who["g1"].Addr
+			eng.mu.Unlock()
 			cfg := core.DefaultTxPoolConfig
 			cfg.Journal = ""
 			pool := core.NewTxPool(cfg, w.A.Bc)
@@ -134,6 +150,7 @@ func runMiner(env *drive.Env) error {
 					env.Emit(map[string]interface{}{"ev": "BuildError", "blk": num, "err": "worker builds on a stale head"})
 					return
 				}
+				cbUsed := eng.lastCoinbase() // what commitNewWork(num) was given
 				// the next commitNewWork reads its coinbase as soon as this block is written
 				if bi+1 < len(beh) {
 					eng.setCoinbase(w.Who[beh[bi+1].Cb].Addr)
@@ -267,7 +284,7 @@ func runMiner(env *drive.Env) error {
 				ev["offered"], ev["included"], ev["rejected"] = offered, included, rejected
 				ev["nb"], ev["na"] = nonceBefore, nonceAfter
 				ev["nrcpt"], ev["sumgas"], ev["limit"] = len(rs), sumGas, blk.GasLimit()
-				ev["cbok"] = blk.Coinbase() == w.Who[ab.Cb].Addr
+				ev["cbok"] = blk.Coinbase() == cbUsed
 				env.Emit(ev)
 				// re-execution with the import executor on the independent chain (its head is the parent), then import
 				for k := 0; k <= K; k++ {
